@@ -405,7 +405,7 @@ def cart2geodetic(x, y, z, ellipsoid=None):
 
     lon = np.rad2deg(np.arctan2(y, x))
     B0 = np.arctan2(z, np.hypot(x, y))
-    B = np.ones(B0.shape)
+    B = np.full(B0.shape, np.inf)
     e2 = ellipsoid[1]**2
     if e2 == 0.0:
         h, lat, lon = cart2geocentric(x, y, z)
